@@ -168,6 +168,16 @@ def _cache_corrupt(evs, profile):
     return None
 
 
+def _coalesce_corrupt(evs, profile):
+    out = [dict(e) for e in evs]
+    # a waiter is shown as having started an inner call of its own
+    for e in out:
+        if e.get('e') == 'create' and e.get('ns') == 0:
+            e['ns'] = 1
+            return out
+    return None
+
+
 COMPONENTS = {
     'bulkhead': {
         'spec_files': ['Bulkhead.tla', 'MC_Bulkhead.tla', 'Trace_Bulkhead.tla'],
@@ -277,6 +287,15 @@ COMPONENTS = {
         'random': {'quick': [{'runs': 1200}], 'thorough': [{'runs': 15000}]},
         'corrupt': _cache_corrupt,
     },
+    'coalesce': {
+        'spec_files': ['Coalesce.tla', 'MC_Coalesce.tla', 'Trace_Coalesce.tla'],
+        'mc': {'quick': [{'cfg': 'MC_Coalesce_q.cfg', 'module': 'MC_Coalesce'}], 'thorough': [{'cfg': 'MC_Coalesce.cfg', 'module': 'MC_Coalesce'}]},
+        'gen': {'cfg': 'Gen_Coalesce.cfg', 'module': 'MC_Coalesce', 'num': {'quick': 400, 'thorough': 5000}, 'depth': 45},
+        'trace_module': 'Trace_Coalesce', 'trace_cfg_tmpl': 'Trace_Coalesce.cfg.tmpl',
+        'harness': 'coalesce',
+        'random': {'quick': [{'runs': 2000}], 'thorough': [{'runs': 30000}]},
+        'corrupt': _coalesce_corrupt,
+    },
 }
 
 PROPS = {
@@ -297,6 +316,7 @@ PROPS = {
     'C06': {'comp': 'timelimiter', 'profile': 'full'},
     'C12': {'comp': 'hedge', 'profile': 'full'},
     'C10': {'comp': 'cache', 'profile': 'full'},
+    'C11': {'comp': 'coalesce', 'profile': 'full'},
     'C02': {'comp': 'ratelimiter', 'profile': 'ProfC02', 'drift_profile': 'ProfAll'},
     'C15': {'comp': 'ratelimiter', 'profile': 'ProfC15', 'drift_profile': 'ProfAll'},
 }
